@@ -10,8 +10,11 @@ RULE = ('typed operand pairs (Integer/Single/Double, all 9 type pairs) built fro
         'its exact value converted to the other type, then unchanged / one ulp up or down (across binade '
         'boundaries) / negated / replaced by a zero encoding with garbage mantissa bytes; each '
         '(operator, left, right) is one case; non-trivial = operands are not byte-identical; the same pairs are '
-        'evaluated at BASIC level through variables loaded with CVI/CVS/CVD, and bubble-sort programs over '
-        'arrays of patterns check the comparisons used in sequence')
+        'evaluated at BASIC level through variables loaded with CVI/CVS/CVD; a further set runs the nine operator '
+        'spellings, the trichotomy sums and an IF chain with the operands held in every kind of storage (scalars, '
+        'two elements of one array - same or different cell, one- and two-dimensional -, elements of different '
+        'arrays, FIELD buffers read with CVI/CVS/CVD, FOR counters, DEF FN parameters, temporaries, and mixtures) in '
+        'all type pairings; bubble-sort programs over arrays of patterns check the comparisons used in sequence')
 EXPLANATION = ('theorems (PcbV.Props.C06): Float.gt/eq decide the exact order/equality of the rational values of '
                'all valid patterns of any well-formed format, Integer.gt/eq the two\'s-complement order, from_int '
                'and from_single are exact, hence values.eq/neq/lt/gt/lte/gte return -1/0 exactly by the order of '
@@ -149,8 +152,21 @@ def zero_like(rng, t):
     return bytes(rng.randrange(256) for _ in range(n - 1)) + b'\0'
 
 
-def gen_pair(rng):
-    ta, tb = rng.choice(TYPES), rng.choice(TYPES)
+def gen_pair(rng, ta=None, tb=None):
+    """A typed operand pair; with ta/tb given, a pair of exactly these types in this order."""
+    if ta is not None:
+        A, B = gen_pair(rng)
+        for _ in range(200):
+            if (A[0], B[0]) == (ta, tb):
+                return A, B
+            if (B[0], A[0]) == (ta, tb):
+                return B, A
+            A, B = _gen_pair(rng, ta, tb)
+        return (ta, gen_num(rng, ta)), (tb, gen_num(rng, tb))
+    return _gen_pair(rng, rng.choice(TYPES), rng.choice(TYPES))
+
+
+def _gen_pair(rng, ta, tb):
     k = rng.random()
     if k < 0.2:
         return (ta, gen_num(rng, ta)), (tb, gen_num(rng, tb))
@@ -403,6 +419,185 @@ def basic_sort(ctx, s, t, items):
                  % (nums[-1], len(items) - 1))
 
 
+# ---------------------------------------------------------------------------------------------
+# the same comparison matrix with the operands held in every kind of storage
+
+FN_NAME = {}          # (ta, tb) -> user function comparing its two parameters
+FN_PROG = []
+for _i, _ta in enumerate(TYPES):
+    for _j, _tb in enumerate(TYPES):
+        _n = 'FN' + 'ABCDEFGHI'[_i * 3 + _j]
+        FN_NAME[(_ta, _tb)] = _n
+        _x, _y = 'X' + SIGIL[_ta], 'Y' + SIGIL[_tb]
+        FN_PROG.append('%d DEF %s(%s,%s)=-(%s=%s)-2*(%s<>%s)-4*(%s<%s)-8*(%s>%s)-16*(%s<=%s)-32*(%s>=%s)'
+                       % (10 + _i * 3 + _j, _n, _x, _y, _x, _y, _x, _y, _x, _y, _x, _y, _x, _y, _x, _y))
+FN_BITS = ['eq', 'neq', 'lt', 'gt', 'lte', 'gte']
+
+# operand storage kinds; 'for' (a FOR counter) exists for Integer and Single only (a Double counter is a
+# Type mismatch in BASIC)
+KINDS = ['scalar', 'arrP', 'arrQ', 'arrM', 'field', 'for', 'temp']
+# (left kind, right kind, function wrapper, force equal types, weight)
+PLANS = [
+    ('arrP', 'arrP', False, True, 6),      # two elements of the same array
+    ('arrM', 'arrM', False, True, 3),      # ... of the same two-dimensional array
+    ('arrP', 'arrP', True, True, 2),       # ... passed on to DEF FN parameters
+    ('arrP', 'arrQ', False, False, 3),     # elements of different arrays
+    ('arrQ', 'arrM', False, False, 1),
+    ('arrP', 'scalar', False, False, 2), ('scalar', 'arrP', False, False, 2),
+    ('scalar', 'scalar', False, False, 1),
+    ('field', 'field', False, False, 2), ('field', 'arrP', False, False, 1), ('scalar', 'field', False, False, 1),
+    ('for', 'for', False, False, 2), ('for', 'arrP', False, False, 1), ('arrQ', 'for', False, False, 1),
+    ('scalar', 'for', False, False, 1), ('for', 'field', False, False, 1),
+    ('scalar', 'scalar', True, False, 1), ('temp', 'temp', True, False, 1), ('field', 'arrM', True, False, 1),
+    ('temp', 'arrP', False, False, 1), ('arrM', 'temp', False, False, 1),
+]
+
+
+def gen_plan(rng):
+    """(A, B, plan) with plan = [left kind, right kind, fn wrapper, left slot, right slot]"""
+    kl, kr, fn, same, _ = rng.choices(PLANS, weights=[p[4] for p in PLANS])[0]
+    ta = rng.choice('is' if kl == 'for' else TYPES)
+    tb = ta if same else rng.choice('is' if kr == 'for' else TYPES)
+    A, B = gen_pair(rng, ta, tb)
+    il = rng.randrange(9)
+    ir = rng.randrange(9)
+    if kl == kr and ta == tb and il == ir and A[1] != B[1]:
+        ir = (il + 1 + rng.randrange(8)) % 9      # one cell cannot hold two patterns
+    return A, B, [kl, kr, fn, il, ir]
+
+
+def fixed_plans():
+    h = lambda x: mbf.unhx(x)
+    out = []
+    for t, a, b in (('s', '00004081', '00002082'), ('d', '0000000000004081', '0000000000002082'),
+                    ('s', '00002082', '00002082'), ('d', '01000000000000ff', '00000000000000ff'),
+                    ('s', '000080ff', '0000807f'), ('i', '0100', '0200'), ('s', '00000000', '12345600')):
+        for kind in ('arrP', 'arrM'):
+            out.append(((t, h(a)), (t, h(b)), [kind, kind, False, 0, 1]))
+            out.append(((t, h(b)), (t, h(a)), [kind, kind, False, 7, 2]))
+        out.append(((t, h(a)), (t, h(b)), ['arrP', 'arrP', True, 3, 4]))
+        out.append(((t, h(a)), (t, h(a)), ['arrP', 'arrP', False, 5, 5]))
+        out.append(((t, h(a)), (t, h(a)), ['arrP', 'arrP', False, 5, 6]))
+    return out
+
+
+def place(side, A, kind, slot):
+    """(setup statement or None, FOR header or None, expression) holding operand A in the given storage"""
+    t, b = A
+    g = SIGIL[t]
+    lit = '%s(%s)' % (CV[t], chrs(b))
+    if kind == 'scalar':
+        n = 'UV'[side] + g
+        return '%s=%s' % (n, lit), None, n
+    if kind in ('arrP', 'arrQ'):
+        n = '%s%s(%d)' % (kind[-1], g, slot)
+        return '%s=%s' % (n, lit), None, n
+    if kind == 'arrM':
+        n = 'M%s(%d,%d)' % (g, slot // 3, slot % 3)
+        return '%s=%s' % (n, lit), None, n
+    if kind == 'field':
+        n = ('FA$', 'FB$')[side]
+        return 'LSET %s=%s' % (n, chrs(b)), None, '%s(%s)' % (CV[t], n)
+    if kind == 'for':
+        n, n0 = 'KL'[side] + g, 'KL'[side] + '0' + g
+        return '%s=%s' % (n0, lit), 'FOR %s=%s TO %s' % (n, n0, n0), n
+    if kind == 'temp':
+        return None, None, lit
+    raise ValueError(kind)
+
+
+class StorageSession(object):
+    """A session with the arrays, the random-file FIELD and the comparison functions in place."""
+
+    def __init__(self):
+        import tempfile
+        self.dir = tempfile.mkdtemp(prefix='pcbv_c06_')
+        self.s = basic.new_session(devices={'C': self.dir}, current_device='C')
+        self.s.__enter__()
+        out = b''
+        for l in FN_PROG:
+            out += self.s.execute(l.encode('latin-1'))
+        out += self.s.execute(b'RUN')
+        out += self.s.execute(('DIM ' + ','.join('%s%s(8)' % (a, SIGIL[t]) for a in 'PQ' for t in TYPES) + ','
+                               + ','.join('M%s(2,2)' % SIGIL[t] for t in TYPES)).encode('latin-1'))
+        out += self.s.execute(b'OPEN "R",#1,"C06F.DAT",16:FIELD #1,8 AS FA$,8 AS FB$')
+        if out:
+            raise RuntimeError('storage session set-up printed %r' % out)
+
+    def close(self):
+        import shutil
+        try:
+            self.s.execute(b'CLOSE')
+            self.s.__exit__(None, None, None)
+        finally:
+            shutil.rmtree(self.dir, ignore_errors=True)
+
+
+def storage_pair(ctx, ss, A, B, plan):
+    """The relational operators on one pair whose operands live in the storage kinds of `plan`."""
+    kl, kr, fn, il, ir = plan
+    va, vb = value(*A), value(*B)
+    sl, hl, l = place(0, A, kl, il)
+    sr, hr, r = place(1, B, kr, ir)
+    same_cell = (l == r)
+    setup = ':'.join(x for x in (sl, sr) if x)
+    heads = [h for h in (hl, hr) if h]
+    pre = ''.join(h + ':' for h in heads)
+    case = {'level': 'storage', 'a': [A[0], mbf.hx(A[1])], 'b': [B[0], mbf.hx(B[1])], 'plan': plan}
+    tag = '%s/%s%s' % (kl, kr, '/fn' if fn else '')
+    if kl == kr and kl.startswith('arr') and A[0] == B[0]:
+        tag += ':same-array' + ('-same-cell' if same_cell else '')
+    ctx.case(('storage', tag, A, B))
+    ctx.count('storage:' + tag)
+    where = '%s ? %s with %s, %s' % (l, r, describe(A), describe(B))
+    out0 = ss.s.execute(setup.encode('latin-1')) if setup else b''
+    if out0:
+        ctx.fail('storage:%s:setup:%s' % (tag, line('x', A, B).split(' ', 1)[1]), case,
+                 'loading the operands (%s) printed %r' % (setup, out0))
+        return
+    exp = {op: REL[op](va, vb) for op in OPS}
+    if fn:
+        out = ss.s.execute(('%sPRINT %s(%s,%s)%s' % (pre, FN_NAME[(A[0], B[0])], l, r,
+                                                     ':END' + ':NEXT' * len(heads) if heads else '')).encode('latin-1'))
+        want = sum(1 << i for i, op in enumerate(FN_BITS) if exp[op])
+        if out.split() != [b'%d' % want]:
+            try:
+                got = int(out.split()[0])
+                bad = ','.join(op for i, op in enumerate(FN_BITS) if (got >> i) & 1 != int(exp[op])) or 'output'
+            except (ValueError, IndexError):
+                bad = 'output'
+            ctx.fail('storage:%s:%s:%s' % (tag, bad, line('x', A, B).split(' ', 1)[1]), case,
+                     'user function over = <> < > <= >= (bits 1,2,4,8,16,32) on %s returned %r, exact comparison '
+                     'demands %d' % (where, out, want))
+        return
+    nine = 'PRINT ' + ';'.join('%s%s%s' % (l, sp, r) for sp, _ in SPELL)
+    sums = 'PRINT (%s<%s)+(%s=%s)+(%s>%s);(%s<=%s)+(%s>%s)' % (l, r, l, r, l, r, l, r, l, r)
+    if heads:
+        chain = ('IF %s<%s THEN PRINT "L":END ELSE IF %s=%s THEN PRINT "E":END ELSE PRINT "G":END' % (l, r, l, r)
+                 + ':NEXT' * len(heads))
+    else:
+        chain = 'IF %s<%s THEN PRINT "L" ELSE IF %s=%s THEN PRINT "E" ELSE PRINT "G"' % (l, r, l, r)
+    out = ss.s.execute(('%s%s:%s:%s' % (pre, nine, sums, chain)).encode('latin-1'))
+    toks = out.split()
+    want = [b'-1' if exp[op] else b'0' for _, op in SPELL] + [b'-1', b'-1',
+                                                               b'L' if va < vb else b'E' if va == vb else b'G']
+    if toks != want:
+        names = [sp for sp, _ in SPELL] + ['trichotomy', 'lte-not-gt', 'if']
+        bad = [n for n, t, e in zip(names, toks + [None] * 12, want) if t != e]
+        ctx.fail('storage:%s:%s:%s' % (tag, ','.join(bad) or 'output', line('x', A, B).split(' ', 1)[1]), case,
+                 'comparisons %s printed %r, exact comparison demands %r (= <> >< < > <= =< >= =>, then '
+                 '(<)+(=)+(>), (<=)+(>), IF chain)' % (where, out, b' '.join(want)))
+
+
+def storage_level(ctx, plans):
+    ss = StorageSession()
+    try:
+        for A, B, plan in plans:
+            storage_pair(ctx, ss, A, B, plan)
+    finally:
+        ss.close()
+
+
 def basic_level(ctx, pairs, n_sort):
     rng = ctx.rng
     s = basic.new_session()
@@ -483,7 +678,10 @@ def run(ctx):
     ctx.sample({'op': 'lt', 'a': describe(A), 'b': describe(B), 'impl': impl.op('lt', A, B)})
     A, B = pairs[-1]
     ctx.sample({'op': 'gte', 'a': describe(A), 'b': describe(B), 'impl': impl.op('gte', A, B)})
-    bp = fixed_pairs() + [gen_pair(rng) for _ in range(900 if ctx.quick else 12000)]
+    sp = fixed_plans() + [gen_plan(rng) for _ in range(450 if ctx.quick else 12000)]
+    ctx.log('%d pairs with operands in arrays / scalars / FIELD buffers / FOR counters / DEF FN parameters' % len(sp))
+    storage_level(ctx, sp)
+    bp = fixed_pairs() + [gen_pair(rng) for _ in range(700 if ctx.quick else 12000)]
     ctx.log('%d BASIC-level pairs' % len(bp))
     basic_level(ctx, bp, 120 if ctx.quick else 1500)
 
@@ -503,6 +701,10 @@ def replay(ctx, payload):
             s = basic.new_session()
             with s:
                 basic_pair(sub, s, A, B, bool(case.get('direct')))
+    elif lvl == 'storage':
+        A = (case['a'][0], mbf.unhx(case['a'][1]))
+        B = (case['b'][0], mbf.unhx(case['b'][1]))
+        storage_level(sub, [(A, B, case['plan'])])
     elif lvl == 'sort':
         s = basic.new_session()
         with s:
